@@ -30,6 +30,26 @@ def emit(n):
 POLL = ["poll"]
 QST = ["q", "status"]
 SUB = ["sub"]
+DROP = ["drop"]
+
+
+def drop_ok(case):
+    """Event `drop` (the future / stream under test is dropped while its observer still sits in the source
+    subject).  Outside the property and not generated: a dropped STREAM whose source emits another ITEM before
+    its terminal — `ObservableStreamObserver::next` expects the send (a panic that predates every fix)."""
+    if case.field("kind")[0] != "stream":
+        return True
+    dropped = False
+    for ev in case.events:
+        if ev[0] == "drop":
+            dropped = True
+        elif ev[0] == "emit":
+            n = ev[2]
+            if n == "c" or n[0] == "e":
+                return True
+            if dropped:
+                return False
+    return True
 
 # kind statustake: what sits between complete_status() and the probe, and the source in front of it
 CUTTERS_QUICK = (["id"], ["take", "0"], ["take", "1"], ["take", "2"], ["first"],
@@ -116,7 +136,7 @@ def stream_expected(items, term):
 class C14(Prop):
     pid = "C14"
     lean_module = "RxModel.Props.C14"
-    extra_modules = ("RxModel.Props.C14T", "RxModel.Props.C14K")
+    extra_modules = ("RxModel.Props.C14T", "RxModel.Props.C14K", "RxModel.Props.C14D")
     design_ref = "DESIGN.md §6 C14, §7 findings 2, 3"
     rule = ("bounded-exhaustive: kind in {to_future, to_stream, collect+to_future, complete_status} x "
             "flavor {local, threads} x source script (0..k distinct items, then complete / error / neither; "
@@ -128,6 +148,9 @@ class C14(Prop):
             "complete_status() and the probe x flavor x script (0..3 items, then complete / error / neither, "
             "post-terminal calls) x every subset of the gaps receiving a poll, flag queries in alternate gaps; "
             "statuswait with a cutter: items that let the cutter finish, THEN the waiter parks, then the terminal. "
+            "drop: every kind x flavor x script (0..2 items, complete / error, post-terminal events) x the consumer "
+            "(future / stream) dropped in every gap, a poll before it or not: no source event may panic "
+            "afterwards, later polls are not made (status: unaffected). "
             "Non-trivial = some poll was Ready / some flag query was answered; distinct = distinct case text.")
     assumptions = [
         "sequential histories only: source calls and polls happen on one thread (the waiter/producer race of "
@@ -140,8 +163,9 @@ class C14(Prop):
         "point whatever the downstream cutter did",
     ]
     modelled_not_verified = ("src/ops/{future,stream,collect,complete_status}.rs, the Subject/Subscriber slot and "
-                             "futures-channel's unbounded mpsc are hand transcriptions (RxModel/Conv/Convert.lean); take / take_while / "
-                             "Subject's is_finished filter / create / from_iter below complete_status: "
+                             "futures-channel's unbounded mpsc (incl. the receiver's Drop: RxModel/Conv/Dropped.lean) are hand "
+                             "transcriptions (RxModel/Conv/Convert.lean); take / take_while / "
+                             "Subject's terminal fan-out / create / from_iter below complete_status: "
                              "RxModel/Conv/StatusTake.lean, "
                              "validated only on the generated cases")
 
@@ -199,6 +223,7 @@ class C14(Prop):
                             evs.append(QST)
                         out.append(mk_case(kind, flavor, evs, {"kind": kind}))
         out += self.take_cases(tier, rng)
+        out += self.drop_cases(tier, rng)
         # random longer histories
         n = 400 if tier == "quick" else 4000
         for _ in range(n):
@@ -226,6 +251,57 @@ class C14(Prop):
         for tup in itertools.zip_longest(*by.values()):
             mixed += [c for c in tup if c is not None]
         return mixed
+
+    def drop_cases(self, tier, rng):
+        """The consumer (future / stream) is dropped while its observer still sits in the source subject; the
+        source goes on and terminates: nothing may panic (the subject hands its terminal to every subscriber,
+        also to one that reports is_finished() = sender.is_closed())."""
+        out = []
+        scripts = []
+        for k in range(3):
+            for term in ("c", E(7)):
+                for tail in ([], [N(9), "c", E(8)]):
+                    scripts.append(([N(i + 1) for i in range(k)], term, tail))
+        for kind in KINDS:
+            for flavor in ("local", "threads"):
+                for items, term, tail in scripts:
+                    src = [emit(n) for n in items] + [emit(term)] + [emit(n) for n in tail]
+                    for at in range(len(src) + 1):
+                        for pre_poll in (False, True):
+                            evs = []
+                            for g, e in enumerate(src):
+                                if g == at:
+                                    evs += ([POLL] if pre_poll else []) + [DROP]
+                                evs.append(e)
+                            if at == len(src):
+                                evs += ([POLL] if pre_poll else []) + [DROP]
+                            evs += [POLL] + ([QST] if kind == "status" else [])
+                            c = mk_case(kind, flavor, evs, {"kind": "drop-" + kind})
+                            if drop_ok(c):
+                                out.append(c)
+        n = 100 if tier == "quick" else 1000
+        for _ in range(n):
+            kind = rng.choice(KINDS)
+            evs = []
+            for _ in range(rng.randint(1, 10)):
+                r = rng.random()
+                if r < 0.25:
+                    evs.append(POLL)
+                elif r < 0.6:
+                    evs.append(emit(N(rng.choice([0, 1, 2]))))
+                elif r < 0.72:
+                    evs.append(emit("c"))
+                elif r < 0.84:
+                    evs.append(emit(E(rng.choice([3, 4]))))
+                else:
+                    evs.append(DROP)
+            if DROP not in evs:
+                evs.insert(rng.randint(0, len(evs)), DROP)
+            evs.append(rng.choice((emit("c"), emit(E(5)))))
+            c = mk_case(kind, rng.choice(("local", "threads")), evs, {"kind": "random-drop-" + kind})
+            if drop_ok(c):
+                out.append(c)
+        return out
 
     def take_cases(self, tier, rng):
         """complete_status() whose downstream can finish before the source does."""
@@ -355,7 +431,7 @@ class C14(Prop):
                     return {"kind": "lost-wakeup", "event": k,
                             "detail": f"wait_for_end did not return although the source has terminated: {lines.get(k)}"}
             return None
-        done = False          # future resolved / stream ended: later polls are not judged
+        done = False          # future resolved / stream ended / consumer dropped: later polls are not judged
         yielded = 0
         for k, ev in enumerate(case.events):
             body = lines.get(k)
@@ -364,7 +440,15 @@ class C14(Prop):
                     return {"kind": "panic", "event": k, "detail": "case stopped by a panic"}
                 return {"kind": "missing-line", "event": k, "detail": ""}
             if body == "PANIC":
-                return {"kind": "panic", "event": k, "detail": "panic inside the library"}
+                return {"kind": "panic", "event": k,
+                        "detail": f"panic inside the library at {ev}" +
+                                  (" (the consumer had been dropped)" if DROP in case.events[:k] else "")}
+            if ev[0] == "drop":
+                if body != "dropped":
+                    return {"kind": "bad-line", "event": k, "detail": body}
+                if kind != "status":
+                    done = True
+                continue
             items, term = source_history(case, k)
             if ev[0] == "emit":
                 if kind == "status":
@@ -392,6 +476,8 @@ class C14(Prop):
                     return {"kind": kd, "event": k, "detail": f"got {body}"}
                 continue
             if done:
+                if DROP in case.events[:k] and body != "na":
+                    return {"kind": "bad-line", "event": k, "detail": f"poll of a dropped consumer: {body}"}
                 continue
             if kind in ("future", "collectfuture"):
                 if body == "poll=Pending":
@@ -443,7 +529,8 @@ class C14(Prop):
         for i in range(len(case.events) - 1, -1, -1):
             c = case.copy()
             del c.events[i]
-            cands.append(c)
+            if drop_ok(c):
+                cands.append(c)
         # a smaller cutter / iterator / fewer items before the waiter parks
         cut = case.field("cutter")
         if cut and cut[0][0] == "take" and int(cut[0][1]) > 1:
